@@ -1885,9 +1885,12 @@ func (p *balloons) pinCpuMem(c cache.Container, cpus cpuset.CPUSet, mems idset.I
 			if err != nil {
 				log.Error("failed to parse CpusetMems: %v", err)
 			} else {
+				// Account for the memory of the container, but
+				// never alter the memory pinning it asked us
+				// to preserve, even if the allocator had to
+				// widen its zone.
 				zone := p.allocMem(c, preserveMems, 0, true)
 				log.Debug("  - allocated preserved memory %s", c.PrettyName, zone)
-				c.SetCpusetMems(zone.MemsetString())
 			}
 		} else {
 			effMemTypeMask, err := c.MemoryTypes()
@@ -1953,6 +1956,9 @@ func (p *balloons) allocMem(c cache.Container, mems idset.IDSet, types libmem.Ty
 
 	for oID, oz := range updates {
 		if oc, ok := p.cch.LookupContainer(oID); ok {
+			if oc.PreserveMemoryResources() {
+				continue
+			}
 			oc.SetCpusetMems(oz.MemsetString())
 		}
 	}
